@@ -351,15 +351,17 @@ def run_case(case, order, out=None):
 
 
 # ---- replacement: circuit vs equivalent process ----------------------------------------------------------
-def run_replacement(kind, as_process, stim, rng_seed):
+def run_replacement(kind, as_process, stim, rng_seed, edge="pos", reruns=1):
+    """A circuit, or the process the simulator guide gives as its equivalent, under the same testbench; the
+    simulation is run, then reset() and run again `reruns` times: -> the concatenated observation traces."""
     from amaranth.hdl import Module, Signal, ClockDomain, Period
     from amaranth.sim import Simulator
     m = Module()
     trace = []
     if kind == "adder":
-        a, bb, o = Signal(8), Signal(8), Signal(9)
+        a, bb, o = Signal(8, init=3), Signal(8, init=4), Signal(9)
         if not as_process:
-            m.d.comb += o.eq(a + bb)
+            m.d.comb += o.eq(a + bb + 1)
         else:
             keep = Signal()
             m.d.comb += keep.eq(o[0])
@@ -367,10 +369,11 @@ def run_replacement(kind, as_process, stim, rng_seed):
         if as_process:
             async def proc(ctx):
                 async for a_v, b_v in ctx.changed(a, bb):
-                    ctx.set(o, a_v + b_v)
+                    ctx.set(o, a_v + b_v + 1)
             sim.add_process(proc)
 
         async def tb(ctx):
+            trace.append(("initial", ctx.get(o)))
             for (x, y) in stim:
                 ctx.set(a, x)
                 trace.append(ctx.get(o))
@@ -378,9 +381,13 @@ def run_replacement(kind, as_process, stim, rng_seed):
                 trace.append(ctx.get(o))
         sim.add_testbench(tb)
         sim.run()
+        for _ in range(reruns):
+            trace.append("reset")
+            sim.reset()
+            sim.run()
         return trace
     async_reset = kind == "counter-async"
-    cd = ClockDomain("sync", async_reset=async_reset)
+    cd = ClockDomain("sync", async_reset=async_reset, clk_edge=edge)
     m.domains.sync = cd
     en, count = Signal(init=1), Signal(4, init=3)
     if not as_process:
@@ -409,34 +416,51 @@ def run_replacement(kind, as_process, stim, rng_seed):
             ctx.set(cd.rst, r)
             trace.append(("after-set", ctx.get(count)))
             for _ in range(nt):
-                await ctx.tick()
-                trace.append(("tick", ctx.get(count), ctx.elapsed_time().femtoseconds))
+                if nt == 3:
+                    # (also between clock edges: an asynchronous reset acts at once, in either form)
+                    await ctx.delay(Period(fs=3))
+                    trace.append(("between-edges", ctx.get(count)))
+                    ctx.set(cd.rst, 1 - r)
+                    trace.append(("reset-toggled-between-edges", ctx.get(count)))
+                    ctx.set(cd.rst, r)
+                clk_hit, rst_active = (await ctx.tick())[:2]
+                trace.append(("tick", ctx.get(count), ctx.elapsed_time().femtoseconds, bool(rst_active)))
     sim.add_testbench(tb)
     sim.run()
+    for _ in range(reruns):
+        trace.append("reset")
+        sim.reset()
+        sim.run()
     return trace
 
 
 def check_replacements(rng, out):
-    for kind in ("adder", "counter-sync", "counter-async"):
+    for kind, edge in (("adder", "pos"), ("counter-sync", "pos"), ("counter-async", "pos"), ("counter-sync", "neg"), ("counter-async", "neg")):
         if kind == "adder":
             stim = [(rng.getrandbits(8), rng.getrandbits(8)) for _ in range(12)]
         else:
             stim = [(rng.getrandbits(1), int(rng.random() < 0.25), rng.randrange(1, 4)) for _ in range(10)]
+        label = kind + ("" if kind == "adder" else ":" + edge + "edge")
         try:
-            t_circ = run_replacement(kind, False, stim, 0)
-            t_proc = run_replacement(kind, True, stim, 0)
+            t_circ = run_replacement(kind, False, stim, 0, edge)
+            t_proc = run_replacement(kind, True, stim, 0, edge)
         except Exception as ex:
             if exc_origin(ex) != "repo":
                 raise
-            out["violations"].append({"mechanism": f"replacement-exception:{kind}:{type(ex).__name__}", "detail": {"stimulus": stim, "exception": repr(ex)[:300]}})
+            out["violations"].append({"mechanism": f"replacement-exception:{label}:{type(ex).__name__}", "detail": {"stimulus": stim, "exception": repr(ex)[:300]}})
             continue
         out["evaluations"] += 1
         out["extra"]["replacements_compared"] += 1
+        out["hist"]["replacement:" + label] = out["hist"].get("replacement:" + label, 0) + 1
         if t_circ != t_proc:
             k = next((i for i, (x, y) in enumerate(zip(t_circ, t_proc)) if x != y), -1)
-            out["violations"].append({"mechanism": f"circuit-vs-equivalent-process:{kind}",
+            after_reset = "reset" in t_circ[:k] if k >= 0 else False
+            out["violations"].append({"mechanism": f"circuit-vs-equivalent-process:{label}" + (":after-reset()" if after_reset else ""),
                                       "detail": {"stimulus": stim, "first_difference": k, "circuit": t_circ[k] if k >= 0 else None,
                                                  "process": t_proc[k] if k >= 0 else None}})
+        half = t_circ.index("reset") if "reset" in t_circ else len(t_circ)
+        if t_circ[:half] != t_circ[half + 1:]:
+            out["violations"].append({"mechanism": f"replacement-circuit-rerun-after-reset-differs:{label}", "detail": {"stimulus": stim}})
 
 
 def shards(tier, seed):
